@@ -64,7 +64,8 @@ def c05(run):
     run.trace("encode-any", Q(run, 30, 300), types=frames, seed_off=100, small=True)
     run.trace("tables", Q(run, 1, 3), types=frames, seed_off=200, small=True)
     run.trace("big-frames", Q(run, 3, 12), types=frames, seed_off=300, chunk=30)
-    run.parallel("history", Q(run, 30, 200), goroutines=16, rounds=2, seed_off=400, types=frames)   # the services are shared by all encoders
+    # the services are shared by all encoders: frames encoded by 16 goroutines at once must carry correct checksums too
+    run.parallel("history", Q(run, 30, 200), goroutines=16, rounds=2, seed_off=400, types=frames, race_filter="codec/checksum.go", prop_clauses="C05")
     run.assumptions += ["the four checksum services are registered (library start-up state)"]
     return run.finish(RULE_WIRE + RULE_TRACE + "Frames only (the three checksummed frame types x all their registered bodies).")
 
